@@ -346,7 +346,7 @@ package z
 //@   ensures 0 <= result && result < 63 && (1<<uint(result)) <= sz && (result == 62 || sz < (1<<uint(result+1)))
 
 //@ func NewAllocator(sz int, tag string) *Allocator
-//@   requires sz <= 1<<30
+//@   requires sz <= 1<<30 && allocs != nil && allocsMu != nil
 //@   noframe
 //@   ensures [C12] #wf result != nil && gcFresh(result) && GcWfChunks(result) && GcWfPos(result) && result.compIdx == 0
 //@   ensures [C12] #size len(result.buffers[0]) >= sz && len(result.buffers[0]) >= 512
